@@ -286,13 +286,17 @@ class Compiler:
         self._compile_statement(finalizer)
         self.loop_stack.pop()
 
-    def _emit_exit_cleanup(self, target_index: int, pop_operands: bool = True) -> None:
+    def _emit_exit_cleanup(
+        self, target_index: int, pop_operands: bool = True, pending_value: bool = False
+    ) -> None:
         """Emit what leaving the constructs nested inside loop_stack[target_index] requires.
 
         Walks loop/switch contexts and try contexts from the innermost outwards, up to
         (not including) the target: pops iterators and discriminants, removes active
         handlers and inlines the finally blocks that lie between the statement and its
-        target. target_index -1 means the whole function (return).
+        target. target_index -1 means the whole function (return). pending_value: the
+        value to return is on the stack while the finally blocks run; a break or continue
+        inside one of them discards it (and must pop it).
         """
         saved_loop_stack = self.loop_stack
         saved_try_stack = self.try_stack
@@ -308,6 +312,15 @@ class Compiler:
                         # The finally block runs in the context that encloses its try statement
                         self.try_stack = saved_try_stack[:ti]
                         self.loop_stack = saved_loop_stack[: try_ctx.loop_depth]
+                        if pending_value:
+                            self.loop_stack.append(
+                                LoopContext(
+                                    label="<pending return value>",  # never a target
+                                    is_loop=False,
+                                    operands=1,
+                                    try_depth=len(self.try_stack),
+                                )
+                            )
                         self._compile_statement(try_ctx.finalizer)
                     ti -= 1
                 elif li > target_index:
@@ -802,7 +815,7 @@ class Compiler:
             # Operands of enclosing constructs are discarded by the VM on return.
             if node.argument:
                 self._compile_expression(node.argument)
-                self._emit_exit_cleanup(-1, pop_operands=False)
+                self._emit_exit_cleanup(-1, pop_operands=False, pending_value=True)
                 self._emit(OpCode.RETURN)
             else:
                 self._emit_exit_cleanup(-1, pop_operands=False)
